@@ -19,6 +19,14 @@ or executed, there is no dynamic fallback):
   `while a: if not b: break` all look the same;
 * a loop that filters and appends and a list comprehension are read into the same (target, iterable,
   conditions, element) form;
+* reduce_to_section is read as a TABLE: for every ISA name the code compares `isa` with (and for one name it
+  does not know) and for every combination found / not found of the two indices, the path conditions are evaluated
+  (three-valued: what does not evaluate excludes nothing) and the returns that remain must slice the kernel with the
+  finder's index or the default accordingly.  if/elif/else, a guard clause raising first and a plain else, `in (..)`,
+  De Morgan forms, nested negative tests, conditional expressions, early returns instead of rebinding start/end are
+  the same table; an else branch that serves unknown names, swapped finders or another sentinel are not;
+* calls of PRIVATE module functions / methods (underscore names) are replaced by the helper's statements before a
+  function is read (astutil_G5.inline_helpers), so "extract function" does not show;
 * parameters of find_marked_section get their role from how they are USED (compared with normalize_imd(..),
   passed to match_bytes, ...), not from their names; the loop index, the line variable, the names of the
   results are taken from the code.
@@ -841,7 +849,9 @@ def _parse_file(tree, menv):
     return sep, first, start_default
 
 
-@generator("MarkerConsts", ["osaca/semantics/marker_utils.py", "osaca/osaca.py", "osaca/parser/base_parser.py"])
+@generator("MarkerConsts", ["osaca/semantics/marker_utils.py", "osaca/osaca.py", "osaca/parser/base_parser.py",
+                            "../verif-self:tools/gen/markerconsts.py", "../verif-self:tools/gen/astutil_G2.py",
+                            "../verif-self:tools/gen/astutil_G5.py"])
 def gen_markerconsts():
     tm = parse("osaca/semantics/marker_utils.py")
     menv = U.module_env(tm)
